@@ -1,8 +1,10 @@
 import Drand
+open Drand.Driver.AggD
 open Drand.Driver.CacheD
 open Drand.Driver.ChainD
 open Drand.Driver.CodecD
 open Drand.Driver.CrashD
+open Drand.Driver.DispatchD
 open Drand.Driver.DkgD
 open Drand.Driver.HashD
 open Drand.Driver.RouteD
